@@ -807,6 +807,10 @@ def sent_sign_agree(chk, program, sites=None):
             continue
         for (d, f) in users:
             # the signedness the generated call site hands to encode_time (None = argument omitted -> helper default)
+            if sites is not None and (f"encode_pgn_{d.suffix}", f.id) not in site_signed:
+                # the call site of this field was not read as a TIME producer (another spelling of the generated encoder): what it hands to encode_time is not known
+                chk.unknown('SENT-AGREE', f"encode_time::encode_pgn_{d.suffix}::{f.id}", 'the call of encode_time for this field was not read: the signedness it passes is not known', UT, dl)
+                continue
             passed = site_signed.get((f"encode_pgn_{d.suffix}", f.id))
             ena, el, takes_signed = encode_time_na(program, n, bool(passed) if passed is not None else False)
             chk.check(dna is not None and ena == dna, 'SENT-AGREE', f"encode_time::encode_pgn_{d.suffix}::{f.id}", file=UT, line=el, func='encode_time',
